@@ -579,11 +579,18 @@ class Engine:
         else:
             node, mod, clsnode = real if real is not None else self.repo.find(key)
         fr = Frame(key, mod, clsnode, c, {})
+        fr.fnode = node
         self.frames = [fr]
+        if c.only_lemmas:
+            self.uses = set()        # this function's obligations see exactly the lemmas its contract names
         self.uses |= set(c.lemmas)
         self._params_init(c, fr)
-        for r in c.requires:
-            self.assume(self.spec_bool(r, fr.env))
+        self.spec_role = "assume"
+        try:
+            for r in c.requires:
+                self.assume(self.spec_bool(r, fr.env))
+        finally:
+            self.spec_role = "prove"
         self.entry_env = dict(fr.env)
         self.entry_heap = dict(self.heap)
         self.frame_ok = set()
@@ -1029,9 +1036,28 @@ class Engine:
             return self.havoc_file(name, c)
         raise Unsupported("havoc of %s cell" % c[0])
 
-    def loop_spec(self, fr):
-        k = fr.loop_ord
-        fr.loop_ord += 1
+    def loop_spec(self, fr, node=None):
+        """ordinal of a loop / comprehension = its position in the function's source (independent of the path taken)"""
+        k = None
+        fnode = getattr(fr, "fnode", None)
+        if node is not None and fnode is not None:
+            if getattr(fr, "loop_index", None) is None:
+                found = []
+
+                def visit(n, top=True):
+                    for ch in ast.iter_child_nodes(n):
+                        if isinstance(ch, (ast.FunctionDef, ast.AsyncFunctionDef, ast.Lambda, ast.ClassDef)):
+                            continue
+                        if isinstance(ch, (ast.For, ast.AsyncFor, ast.While, ast.ListComp, ast.SetComp, ast.DictComp, ast.GeneratorExp)):
+                            found.append(ch)
+                        visit(ch, False)
+                visit(fnode)
+                found.sort(key=lambda n: (n.lineno, n.col_offset))
+                fr.loop_index = {id(n): i for i, n in enumerate(found)}
+            k = fr.loop_index.get(id(node))
+        if k is None:
+            k = fr.loop_ord
+        fr.loop_ord = max(fr.loop_ord, k) + 1
         c = fr.contract
         spec = (c.loops.get(k) if c else None)
         unroll = (c.unroll.get(k) if c else None)
@@ -1098,13 +1124,17 @@ class Engine:
     def assume_invs(self, spec, fr, extra):
         env = dict(fr.env)
         env.update(extra)
-        for inv in spec.get("invariant", []):
-            self.assume(self.spec_bool(inv, env, old=True))
+        self.spec_role = "assume"
+        try:
+            for inv in spec.get("invariant", []):
+                self.assume(self.spec_bool(inv, env, old=True))
+        finally:
+            self.spec_role = "prove"
         for (ln, exprs) in spec.get("hints", []):
             self.add_hint(ln, exprs, env)
 
     def st_While(self, s, fr):
-        k, spec, unroll = self.loop_spec(fr)
+        k, spec, unroll = self.loop_spec(fr, s)
         if s.orelse:
             raise Unsupported("while-else")
         if spec is None:
@@ -1276,7 +1306,7 @@ class Engine:
         return sv
 
     def st_For(self, s, fr):
-        k, spec, unroll = self.loop_spec(fr)
+        k, spec, unroll = self.loop_spec(fr, s)
         if s.orelse:
             raise Unsupported("for-else")
         itv = self.eval(s.iter, fr)
